@@ -917,6 +917,7 @@ def run(ctx):
         'argmax/argmin/sort take None or one integer axis (as numpy.ma)']
     if ctx.ensure_library():
         ctx.prove(['theories/Props/C13.v'])
+        ctx.loops_obligations()        # regenerated from the current source: see coq/obl/Lp_C13.v
     cases = gen_cases(ctx.rng, ctx.tier)
     ctx.log('generated %d cases' % len(cases))
     terms, idx, bad = [], [], {}
